@@ -205,6 +205,29 @@ def gen_witness_shaped(rng):
     return bytes([v, n]) + rbytes(rng, n)
 
 
+MANY_COUNTS = (253, 254, 256, 257, 258, 300, 1000)
+# (inputs, outputs): CompactSize boundary 253, CPython small-int boundary 256/257, a large count; asymmetric ones for
+# SIGHASH_SINGLE with index >= len(vout) next to the boundary
+MANY_SHAPES = tuple((n, n) for n in MANY_COUNTS) + ((300, 2), (2, 300), (258, 257), (257, 258), (259, 1))
+HT_CLASSES = (1, 2, 3, 0x81, 0x82, 0x83, 0, 0x42, 0x63, 0xe3)
+
+
+def many_tx(crng, nin, nout):
+    """minimal inputs / outputs in large number; every input and output distinguishable (n = position, distinct
+    non-zero sequence numbers and values), empty scripts"""
+    return dict(ver=crng.choice((1, 2)), lock=crng.choice((0, 1, 499999999)),
+                vin=[(rbytes(crng, 32) if k % 64 == 0 else bytes([k % 251 + 1]) * 32, k, b'',
+                      crng.randrange(1, U32 + 1)) for k in range(nin)],
+                vout=[(k + 1, b'') for k in range(nout)], wit=None)
+
+
+def many_indices(nin, with_end=True):
+    s = {0, 1, nin - 1} | set(range(252, 259))
+    if with_end:
+        s.add(nin)
+    return sorted(i for i in s if 0 <= i <= (nin if with_end else nin - 1))
+
+
 def template_scripts(crng):
     """Every STANDARD TEMPLATE SHAPE as a literal byte pattern with random payloads, plus the +-1-byte length
     neighbours of each (last byte dropped, one byte appended, payload one byte shorter / longer with and without
@@ -362,6 +385,8 @@ class C03(Prop):
             'payloads and as a length byte, scripts that do not parse) x every index 0..|vin| x ALL 256 hash-type bytes; '
             'hash types outside one byte / negative / outside int32; wrapper (ValueError; subscripts shaped like witness '
             'programs — P2WPKH/P2WSH and every version/length — are generated and their AssertionError is known finding D17); '
+            'transactions with 253..258, 300, 1000 inputs/outputs at indices 0, 1, 252..258, n-1, n x every hash-type class '
+            '(indices are fresh int objects: identity != equality above 256); '
             'every standard template shape (P2WPKH/P2WSH/v1..16 programs, P2PKH, P2SH, P2PK, bare multisig, nulldata, the '
             'P2WPKH script code with and without length prefix, empty, single opcodes) and its +-1-byte neighbours as '
             'subscript; every case also observes that the transaction object is unchanged; a subset is re-evaluated under Spec; '
@@ -417,6 +442,33 @@ class C03(Prop):
         import sys as _sys
         for _ in range(max(1, nh // nshards)):
             yield mk('c03.hist', *H.gen_history(rng, _sys.modules[__name__], self.pool, 'legacy', big), tag='history')
+        # (M) many inputs / outputs (the quantifier is 1..n inputs, every index 0..len(vin)): CompactSize boundary 253,
+        #     CPython's small-int boundary 256/257 (identity vs equality of indices), ~1000; signing indices
+        #     0, 1, 252..258, n-1, n x every hash-type class.  Shard-independent transactions, partitioned by shape.
+        import random as _random
+        mrng = _random.Random('%s:%s:%s:many' % (getattr(self, 'seed', 0), self.id, tier))
+        mcount = 0
+        for j, (nin, nout) in enumerate(MANY_SHAPES):
+            t = many_tx(mrng, nin, nout)
+            sc = mrng.choice([b'', b'\xab\x51\xab', b'\x76\xa9\x14' + rbytes(mrng, 20) + b'\x88\xac'])
+            text = None
+            cls = 'im'[j % 2]
+            for idx in many_indices(nin):
+                mcount += 1
+                if mcount % nshards != shard:           # partition by (shape, index); the counter is deterministic
+                    continue
+                text = text or txfmt.show_tx(t)
+                for ht in HT_CLASSES:
+                    yield mk('c03.raw', cls, sc.hex(), text, idx, ht, tag='many')
+                for ht in (2, 3, 0x83):
+                    yield mk('c03.wrapper', cls, sc.hex(), text, idx, ht, tag='many')
+                yield mk('c03.spec.raw', cls, sc.hex(), text, idx, (2, 3, 0x82, 0x83, 1)[idx % 5], tag='many-spec')
+            if j % nshards != shard:
+                continue
+            if (nin, nout) in ((258, 258), (300, 300), (300, 2)):
+                import sys as _s
+                yield mk('c03.hist', *H.gen_history(rng, _s.modules[__name__], self.pool, 'legacy', big, many=(nin, nout)),
+                         tag='history-many')
         # (T) every standard template shape (and its +-1-byte neighbours) as subscript; the list is built from the
         #     shard-independent generator and partitioned by index
         import random as _random
